@@ -37,7 +37,7 @@ NormState(p, prev) ==
       saves |-> p.saves, savedcols |-> p.savedcols, dirty |-> SeqToSet(p.dirty), sc |-> 0]
 
 PropIds == {"C04","C05","C06","C07","C08","C10","C12","C13","C14","C15","C16","C18","C19","C20","ALL"}
-CntKeys == PropIds \cup {"C01","C02","C03","C09","C11","C17","lines","ops","feeds","ends","skipped_illformed","panics"}
+CntKeys == PropIds \cup {"wire_judged", "wire_desync", "vectors", "setup_mismatch", "C01","C02","C03","C09","C11","C17","lines","ops","feeds","ends","skipped_illformed","panics"}
 Inc(c, keys) == [k \in DOMAIN c |-> IF k \in keys THEN c[k] + 1 ELSE c[k]]
 
 Report(kind, id, line, r, bad, extra) ==
@@ -55,7 +55,7 @@ JudgeOp(r, line) ==
       disp == IF ev.op = "display" THEN r.disp ELSE <<>>
       preOK == HasScreen(st) /\ WellFormedCore(st)
       postOK == Shape(post)
-      judged == IF preOK /\ postOK /\ ~r.panic
+      judged == IF preOK /\ postOK /\ ~r.panic /\ ~rs.skip
                   THEN { id \in PropIds : On(id) /\ InScope(id, st, ev) } ELSE {}
       need1 == IF preOK /\ postOK THEN NeedNext(need, st, ev, post)
                ELSE IF postOK THEN need \cap RowsOf(post) ELSE {}
@@ -90,7 +90,7 @@ JudgeOp(r, line) ==
 
 -----------------------------------------------------------------------------
 (* feed lines: what the listener received during one feed() call             *)
-RsInit(utf8) == [rec |-> Ground, pend |-> <<>>, utf8 |-> utf8, start |-> TRUE, flushAlt |-> FALSE]
+RsInit(utf8) == [rec |-> Ground, pend |-> <<>>, utf8 |-> utf8, start |-> TRUE, flushAlt |-> FALSE, skip |-> FALSE, desync |-> FALSE]
 PlainEv(e) == [op |-> e.op, p |-> e.p, s |-> e.s, pr |-> e.pr]
 TextOf(evs) == FoldLeft(LAMBDA acc, e : IF e.op = "draw" THEN acc \o e.s ELSE acc, <<>>, evs)
 Only(evs, ops) == SelectSeq(evs, LAMBDA e : e.op \in ops)
@@ -116,30 +116,36 @@ JudgeFeed(r, line) ==
                 \cup (IF rs.flushAlt THEN {NormEvents(rfFlush.evs)} ELSE {})
       exp    == NormEvents(rf.evs)
       oscLine == InOsc(rs.rec) \/ InOsc(rf.r) \/ Only(exp, {"title", "icon"}) # <<>> \/ Only(obs, {"title", "icon"}) # <<>>
+      \* the recogniser state is carried by the specification and cannot be resynchronised;
+      \* after the first deviating feed of a history the later feeds are not judged
+      live   == ~rs.desync /\ ~r.panic
+      \* per-property reading of the wire: the operations of the property's scope arrive
+      \* at the listener exactly as the documented grammar says (operation, parameters, order)
+      wireBad(id) == Only(obs, WireOps(id)) \notin { Only(c, WireOps(id)) : c \in cands }
   IN
   /\ rs' = [rs EXCEPT !.rec = rf.r, !.pend = dec.pend, !.flushAlt = FALSE,
-                       !.start = rs.start /\ dec.out = <<>>]
+                       !.start = rs.start /\ dec.out = <<>>,
+                       !.desync = rs.desync \/ r.panic \/ obs \notin cands]
   /\ UNCHANGED <<st, need>>
   /\ cnt' = Inc(cnt, {"lines", "feeds"} \cup (IF r.panic THEN {"panics"} ELSE {})
                      \cup (IF On("C01") THEN {"C01"} ELSE {})
                      \cup (IF On("C03") /\ ~bytes THEN {"C03"} ELSE {})
                      \cup (IF On("C11") /\ bytes THEN {"C11"} ELSE {})
                      \cup (IF On("C19") /\ oscLine THEN {"C19"} ELSE {})
-                     \cup (IF On("C20") /\ ~bytes THEN {"C20"} ELSE {}))
+                     \cup (IF live THEN {"wire_judged"} ELSE {"wire_desync"}))
   /\ (On("C01") /\ r.panic) =>
         PrintT(<<"MISMATCH", ToJson([kind |-> "panic", prop |-> "C01", line |-> line, op |-> r.ev.op, p |-> <<>>,
                                      pr |-> FALSE, src |-> r.ev.port, bad |-> <<"panic">>, info |-> [msg |-> r.msg]])>>)
   \* C03: the ordered listener events are those of the documented grammar
-  /\ (On("C03") /\ ~r.panic /\ ~bytes /\ obs \notin cands) => ReportFeed("C03", line, r, exp, obs)
+  /\ (On("C03") /\ live /\ ~bytes /\ obs \notin cands) => ReportFeed("C03", line, r, exp, obs)
   \* C11: the text delivered is the streaming decoding of the bytes
-  /\ (On("C11") /\ ~r.panic /\ bytes /\ TextOf(obs) \notin { TextOf(c) : c \in cands })
+  /\ (On("C11") /\ live /\ bytes /\ TextOf(obs) \notin { TextOf(c) : c \in cands })
         => ReportFeed("C11", line, r, TextOf(exp), TextOf(obs))
   \* C19: title / icon events carry exactly the payload
-  /\ (On("C19") /\ ~r.panic /\ oscLine /\ obs \notin cands) => ReportFeed("C19", line, r, exp, obs)
-  \* C20 (recogniser part): shifts and designators are delivered in 8-bit mode only
-  /\ (On("C20") /\ ~r.panic /\ ~bytes
-        /\ Only(obs, {"so", "si", "charset"}) \notin { Only(c, {"so", "si", "charset"}) : c \in cands })
-        => ReportFeed("C20", line, r, Only(exp, {"so", "si", "charset"}), Only(obs, {"so", "si", "charset"}))
+  /\ (On("C19") /\ live /\ oscLine /\ obs \notin cands) => ReportFeed("C19", line, r, exp, obs)
+  \* the screen properties read through the wire
+  /\ \A id \in WirePropIds :
+        (On(id) /\ live /\ wireBad(id)) => ReportFeed(id, line, r, Only(exp, WireOps(id)), Only(obs, WireOps(id)))
 
 \* end of a history: histories of one comparison group (same sid) must end in the same state
 JudgeEnd(r, line) ==
@@ -181,6 +187,17 @@ Step ==
        [] r.k = "op" -> JudgeOp(r, l + 1) /\ UNCHANGED <<rs, grp>>
        [] r.k = "feed" -> JudgeFeed(r, l + 1) /\ UNCHANGED grp
        [] r.k = "end" -> JudgeEnd(r, l + 1)
+       [] r.k = "sync" ->
+            \* end of a vector's setup history: the code must have reached the state the
+            \* specification reaches on the same history, otherwise the vector is skipped
+            LET post == NormState(r.post, NoScreen)
+                want == FoldLeft(Apply, Fresh(r.C, r.L), r.setup)
+                same == r.panics = 0 /\ Shape(post) /\ DiffFields(want, post, NoDirty) = {} IN
+            /\ st' = post
+            /\ need' = {}
+            /\ rs' = [rs EXCEPT !.skip = ~same]
+            /\ UNCHANGED grp
+            /\ cnt' = Inc(cnt, {"lines", "vectors"} \cup (IF same THEN {} ELSE {"setup_mismatch"}))
        [] r.k = "utf8" ->
             \* mode switch: a pending incomplete sequence is discarded (or flushed: freedom point)
             /\ rs' = [rs EXCEPT !.utf8 = r.ev.p[1] = 1, !.pend = <<>>,
